@@ -785,3 +785,90 @@ def snippet_scenarios(rng, count):
             snips.append({"prog": b.toks})
         out.append(("snip:%d" % k, {"snips": snips, "mods": mods}))
     return out
+
+
+# ---------------------------------------------------------------------------------------------------
+# C12: operation sequences on a HashMap over a pool of equal-but-differently-built, NaN and unhashable keys
+def mapnode(*kvs):
+    flat = []
+    for k, v in kvs:
+        flat += [k, v]
+    return {"k": "map", "kvs": flat}
+
+
+def hashmap_scenarios(rng, count, exhaustive_pairs=True):
+    out = []
+
+    def pool(b):
+        return {
+            "one": lambda: lit(1),
+            "one-computed": lambda: bin_("-", lit(2), lit(1)),
+            "zero": lambda: lit(0),
+            "negzero": lambda: un("-", lit(0)),
+            "nan": lambda: bin_("/", lit(0), lit(0)),
+            "str": lambda: lit("a"),
+            "str-built": lambda: bin_("+", lit(""), lit("a")),
+            "tuple": lambda: tup(lit(1), lit("a")),
+            "tuple-again": lambda: tup(bin_("-", lit(2), lit(1)), bin_("+", lit(""), lit("a"))),
+            "tuple-negzero": lambda: tup(un("-", lit(0)), lit("a")),
+            "tuple-zero": lambda: tup(lit(0), lit("a")),
+            "nested": lambda: tup(tup(lit(1)), lit(2)),
+            "nil": lambda: lit(None),
+            "true": lambda: lit(True),
+            "class": lambda: b.v("Vec"),
+            "range": lambda: {"k": "range", "l": lit(0), "r": lit(2)},
+            "vec (unhashable)": lambda: vec(lit(1)),
+            "tuple with vec (unhashable)": lambda: tup(lit(1), vec(lit(2))),
+            "held unhashable tuple": lambda: b.v("bad"),
+        }
+    from yprog import un
+    names = list(pool(Builder()).keys())
+    ops = ["insert", "remove", "get", "has_key", "len", "clear", "keys", "values", "items", "literal"]
+
+    def emit(b, plan):
+        b.var("bad", tup(lit(9), vec(lit(8))))
+        b.var("m", mapnode())
+        P = pool(b)
+        for step, (op, kn, kn2) in enumerate(plan):
+            key = P[kn]
+            b.try_()
+            if op == "insert":
+                b.print(tup(lit("insert"), inv(b.v("m"), "insert", key(), lit("v%d" % step))))
+            elif op == "remove":
+                b.print(tup(lit("remove"), inv(b.v("m"), "remove", key())))
+            elif op == "get":
+                b.print(tup(lit("get"), inv(b.v("m"), "get", key())))
+            elif op == "has_key":
+                b.print(tup(lit("has_key"), inv(b.v("m"), "has_key", key())))
+            elif op == "len":
+                b.print(tup(lit("len"), inv(b.v("m"), "len")))
+            elif op == "clear":
+                b.print(tup(lit("clear"), inv(b.v("m"), "clear")))
+            elif op == "keys":
+                b.for_("k", inv(b.v("m"), "keys")); b.print(tup(lit("~key"), b.v("k"))); b.end()
+            elif op == "values":
+                b.for_("k", inv(b.v("m"), "values")); b.print(tup(lit("~value"), b.v("k"))); b.end()
+            elif op == "items":
+                b.for_("k", inv(b.v("m"), "items")); b.print(tup(lit("~item"), b.v("k"))); b.end()
+            else:
+                b.expr(b.assign("m", mapnode((key(), lit("l%d" % step)), (P[kn2](), lit("L%d" % step)))))
+                b.print(tup(lit("literal len"), inv(b.v("m"), "len")))
+            b.catch("e")
+            b.print(tup(lit("error"), call(b.v("type"), b.v("e")), get(b.v("e"), "context")))
+            b.end()
+        b.print(tup(lit("final len"), inv(b.v("m"), "len")))
+        b.for_("k", inv(b.v("m"), "items")); b.print(tup(lit("~final"), b.v("k"))); b.end()
+
+    if exhaustive_pairs:
+        # every ordered pair of pool keys: insert a, then look b up every way, then insert b
+        for a in names:
+            for c in names:
+                b = Builder()
+                emit(b, [("insert", a, a), ("has_key", c, c), ("get", c, c), ("insert", c, c), ("len", a, a), ("remove", c, c), ("has_key", a, a), ("items", a, a)])
+                out.append(("map2:%s|%s" % (a, c), b.toks))
+    for k in range(count):
+        b = Builder()
+        plan = [(rng.choice(ops), rng.choice(names), rng.choice(names)) for _ in range(rng.randint(2, 7))]
+        emit(b, plan)
+        out.append(("mapr:%d" % k, b.toks))
+    return out
